@@ -375,6 +375,24 @@ theorem C10_stepE (g : Game) (wf : WF g) (items : Name → Item) (s : SimState) 
     exact ⟨g', by rw [gameStepE_eq g items s hok]; exact hg', hg'⟩
   · intro g' h; exact gameStepE_sound h
 
+/-- non-vacuity of the `compOK` hypothesis: a file entry with `health_status` is accepted (value −1 for CORRUPT = 2), one
+without it makes `calculate` raise `KeyError`, a `None` where a folder dictionary should be raises `TypeError` -/
+example :
+    let good : SimState := .dict [(.str "network", .dict [(.str "nodes", .dict [(.str "srv", .dict [(.str "file_system",
+      .dict [(.str "folders", .dict [(.str "database", .dict [(.str "files", .dict [(.str "database.db",
+        .dict [(.str "health_status", .int 2)])])])])])])])])]
+    let noKey : SimState := .dict [(.str "network", .dict [(.str "nodes", .dict [(.str "srv", .dict [(.str "file_system",
+      .dict [(.str "folders", .dict [(.str "database", .dict [(.str "files", .dict [(.str "database.db", .dict [])])])])])])])])]
+    let noneOnTheWay : SimState := .dict [(.str "network", .dict [(.str "nodes", .dict [(.str "srv", .dict [(.str "file_system",
+      .dict [(.str "folders", .none)])])])])]
+    let it : Item := { action := "do-nothing", request := .list [.str "do-nothing"], status := "success" }
+    let c : Comp := .fileIntegrity "srv" "database" "database.db"
+    compOK good it c = true ∧ (calcFileE good "srv" "database" "database.db").toOption = some (-1) ∧
+    compOK noKey it c = false ∧ compOK noneOnTheWay it c = false ∧
+    (match calcFileE noKey "srv" "database" "database.db" with | .error .keyError => true | _ => false) = true ∧
+    (match calcFileE noneOnTheWay "srv" "database" "database.db" with | .error .typeError => true | _ => false) = true := by
+  decide
+
 /-- a component raises exactly when its evaluation function does: `compOK` is the decidable, memory-independent form of
 "`calculate` returns" -/
 theorem C10_compOK_iff (s : SimState) (it : Item) (cur : Name → Val) (c : Comp) :
